@@ -65,6 +65,9 @@ func runLinkedMapOrder[K comparable](c *core.Ctx, d *Dom[K]) {
 	cur := map[K]int{}
 	val := 0
 	check := func() {
+		if !c.Observe() {
+			return
+		}
 		ks := m.Keys()
 		if !eqSlices(ks, order) {
 			c.Fail("order", "keys", "%s.Keys() = %s, insertion order is %s", name, short(ks), short(order))
@@ -169,6 +172,8 @@ func runLinkedMapOrder[K comparable](c *core.Ctx, d *Dom[K]) {
 		}
 		check()
 	}
+	c.ObserveNow()
+	check()
 	c.Nontrivial()
 }
 
@@ -190,6 +195,9 @@ func runLinkedSetOrder[T comparable](c *core.Ctx, d *Dom[T]) {
 	}
 	add(init)
 	check := func() {
+		if !c.Observe() {
+			return
+		}
 		vs := s.Values()
 		if !eqSlices(vs, order) {
 			c.Fail("order", "values", "%s.Values() = %s, insertion order is %s", name, short(vs), short(order))
@@ -284,10 +292,13 @@ func runLinkedSetOrder[T comparable](c *core.Ctx, d *Dom[T]) {
 		}
 		check()
 	}
+	c.ObserveNow()
+	check()
 	c.Nontrivial()
 }
 
 func runC09(c *core.Ctx) {
+	c.SetGaps((c.Index/4)%2 == 1)
 	switch c.Index % 4 {
 	case 0:
 		runLinkedMapOrder(c, IntDom(c.R.Range(3, 12)))
